@@ -256,6 +256,23 @@ pub fn map_lawful<I: Iterator, B, F: Fn(I::Item) -> B>(it: I, f: F) -> (r: core:
         forall|k: int| 0 <= k < iter_yields(r).len() ==> call_ensures(f, (it.remaining()[k],), #[trigger] iter_yields(r)[k]),
         iter_ends(r) ==> iter_yields(r).len() == it.remaining().len() && it.will_return_none(),
 { it.map(f) }
+/// the predicate "lies inside rectangle r" on pixels (the bounding-box filter of draw_iter)
+pub open spec fn in_rect<C: PixelColor>(r: Rectangle) -> spec_fn(embedded_graphics_core::Pixel<C>) -> bool {
+    |p: embedded_graphics_core::Pixel<C>| rect_contains(r, p.0.x as int, p.0.y as int)
+}
+/// R27: `it.filter(p)` as a wrapper with the contract of core's Filter adapter (A-filter: yields exactly the items of the
+/// source, in order, for which the predicate returns true, and ends when the source ends).  The predicate must be a
+/// function of its argument (its `ensures` decides the result).  Assumed; cross-checked by the Kani one-pixel harnesses.
+#[verifier::external_body]
+pub fn filter_lawful<I: Iterator, F: FnMut(&I::Item) -> bool>(it: I, f: F, Ghost(pred): Ghost<spec_fn(I::Item) -> bool>) -> (r: core::iter::Filter<I, F>)
+    requires it.obeys_prophetic_iter_laws(), it.decrease() is Some,
+        forall|x: I::Item| call_requires(f, (&x,)),
+        forall|x: I::Item, b: bool| #![trigger call_ensures(f, (&x,), b)] call_ensures(f, (&x,), b) ==> b == pred(x),
+    ensures
+        iter_lawful(r),
+        iter_yields(r) == it.remaining().filter(pred),
+        iter_ends(r) == it.will_return_none(),
+{ it.filter(f) }
 /// R18: `(0..count).map(|_| pixel)`; A-map-const: yields `count` copies of the value and then ends (core's Range and
 /// Map; assumed, cross-checked by the bounded Kani harness c07_send_repeated_pixel_bounded)
 #[verifier::external_body]
@@ -298,6 +315,24 @@ pub uninterp spec fn hv<T, const N: usize>(v: heapless::Vec<T, N>) -> Seq<T>;
 #[verifier::external_body]
 pub broadcast proof fn axiom_hv_len<T, const N: usize>(v: heapless::Vec<T, N>)
     ensures #[trigger] hv(v).len() <= N
+{}
+/// A-hv-model: a heapless vector is determined by its contents (the uninitialised tail is unobservable), and every
+/// sequence of at most N items is the content of some vector.  Assumed model of the opaque library type.
+pub uninterp spec fn hv_mk<T, const N: usize>(s: Seq<T>) -> heapless::Vec<T, N>;
+#[verifier::external_body]
+pub broadcast proof fn axiom_hv_mk<T, const N: usize>(s: Seq<T>)
+    requires s.len() <= N
+    ensures hv(#[trigger] hv_mk::<T, N>(s)) == s
+{}
+#[verifier::external_body]
+pub proof fn axiom_hv_ext<T, const N: usize>(a: heapless::Vec<T, N>, b: heapless::Vec<T, N>)
+    requires hv(a) == hv(b)
+    ensures a == b
+{}
+/// A-hv-iter: a heapless vector by value is a finite lawful stream of its contents (heapless' IntoIterator; assumed)
+#[verifier::external_body]
+pub broadcast proof fn axiom_hv_into_iter<T, const N: usize>(v: heapless::Vec<T, N>)
+    ensures #[trigger] iter_lawful(v), iter_yields(v) == hv(v)
 {}
 pub assume_specification<T, const N: usize> [heapless::Vec::<T, N>::new] () -> (r: heapless::Vec<T, N>)
     ensures hv(r) == Seq::<T>::empty();
@@ -501,7 +536,7 @@ pub broadcast proof fn lemma_push_px_pushed<W>(a: Seq<Ev<W>>, b: Seq<Seq<W>>)
     assert(a.push(Ev::Px(b)).drop_last() =~= a);
 }
 pub broadcast group group_trace {
-    lemma_ctrl_push, lemma_ctrl_px_pushed, axiom_iter_is_into_iter, axiom_hv_len, lemma_push_px_pushed,
+    lemma_ctrl_push, lemma_ctrl_px_pushed, axiom_iter_is_into_iter, axiom_hv_len, axiom_hv_mk, axiom_hv_into_iter, lemma_push_px_pushed,
 }
 
 // ------------------------------------------------------------------------- orientation geometry
